@@ -10,7 +10,7 @@ PLAN = dict(
     functions_under_contract=['tracing/src/instrument.rs: Instrumented::into_inner (drops its span handle exactly once); tracing/src/span.rs: Span::{new_with,new_root_with,child_of_with} use the given collector, Span::or_current', 'tracing/src/span.rs: Span::{new,new_root,child_of,new_with,make_with,new_disabled,none,current,enter,entered,in_scope,record,record_all,follows_from,do_enter,do_exit}, Clone for Inner, Drop for Span, Drop for Entered / EnteredSpan, EnteredSpan::exit', 'tracing/src/instrument.rs: Instrumented::poll, PinnedDrop for Instrumented'],
     trusted_base=["Kani 0.68 / CBMC 6.11 / CaDiCaL; Kani's std build (nightly-2026-08-21), not the repo toolchain's", 'core::fmt::Formatter::pad stubbed to Ok(()) with -Z stubbing (panic-message formatting on infeasible error branches; no harness that uses it reads formatted text)', 'cfg(kani) thread_local! shim and once_cell::sync::Lazy contract stub (see overlay_additions)'],
     assumptions=["each handle is dropped at most once and mem::forget is excluded (Rust's affine typing)", "'same thread' for enter/exit: Kani has one thread", 'the lift from per-operation contracts to whole histories is mechanised in Verus (lemma_c03.verus.rs: balanced_protocol, nothing_after_last_close) over an operation alphabet {clone, drop, enter, exit} whose per-operation effects are the Kani obligations', 'balance over whole programs is the counting argument over the per-operation contracts (not mechanised)'],
-    not_covered=['tracing-futures wrappers (WithDispatch etc.)', "spans disabled by the macros' filtering stages (C01)", 'sending handles across threads'],
+    not_covered=['tracing-futures wrappers (WithDispatch etc.)', "spans disabled by the macros' filtering stages (C01)", 'sending handles across threads', 'unwinding paths: that enter is matched by exit when a closure or future panics rests on the presence of drop guards (Entered), which Kani cannot observe - panic is abort (seed C03-6, in_scope without a guard, is missed)'],
     verus=[dict(name="history", builder="build_history", obligations=["balanced_protocol", "nothing_after_last_close", "all_handles_gone_means_all_closed"])],
     kani=[dict(
         crate="tracing", tls_shim_crates=["tracing-core"], once_cell_stub=True,
